@@ -77,6 +77,7 @@ func run(c *vf.Ctx) {
 	pkcs7Grid(c)
 	pkcs7Reject(c)
 	gppAll(c)
+	histories(c)
 	c.Set("states", atomic.LoadInt64(&totStates))
 	c.Set("transitions", atomic.LoadInt64(&totTrans))
 	c.Set("traces_validated_against_impl", atomic.LoadInt64(&totTrans))
